@@ -13,13 +13,13 @@ from ..common import rng, seed, tier
 from ..harness import Run, actions_results, main_wrapper
 
 FIXED_LISTS = [
-    ["a", "b"], ["red", "dark blue", "x-large"], ["a-b", "a.b", "a b"], ["a", "A"], ["ab", "a_b"], ["1st", "2nd"], ["", "x"], ["x" * 80, "y"], ["é", "e"], ["日本", "中国"], ["a b", "a  b"], ["+", "-"], ["*", "/"],
+    ["a", "b"], [" a", "a ", "a"], ["red", "dark blue", "x-large"], ["a-b", "a.b", "a b"], ["a", "A"], ["ab", "a_b"], ["1st", "2nd"], ["", "x"], ["x" * 80, "y"], ["é", "e"], ["日本", "中国"], ["a b", "a  b"], ["+", "-"], ["*", "/"],
     ["true", "false"], ["None", "none"], ["class", "def"], ["1", "2"], ["a", "b", "c", "d", "e", "f", "g"], ["value_1", "VALUE_1"], ["Ünï", "unı"], ["a\tb", "a b"], ["#hash", "hash"], ["x²", "x2"], ["mro", "name", "value"], ["_a", "a_"], ["__", "_"],
     ["first", "VALUE_2", "3rd", "last"], ["VALUE_0", "", "z"], ["value_1", "2", "x"], ["VALUE_1", "a", "1"], ["a", "VALUE_3", "b", "4th"], ["Value 1", "9"],
     ['say "hi"', "plain"], ["it's", 'q"q', "both'\""], ["back\\slash", "x"], ['a"', "a"], ["%s", "{x}", "{{y}}"],
     [0, 1], [-1, 1], [0], [-5, 5, 50], [2**31, -(2**31)], [10, 100, 1000], [1, 2, 3, 4, 5, 6],
 ]
-CONSTS = ["c", "", "with space", "quote'", 0, 7, -3, 2.5, True, False, "True", "7"]
+CONSTS = ["c", "", "with space", "quote'", 0, 7, -3, 2.5, True, False, "True", "7", " v1 ", "v2 ", "\tv3", " ", "a\u00a0"]
 
 
 def unlisted(vals):
@@ -83,7 +83,9 @@ def main() -> int:
             jobs.append(j)
         # two enums deriving the same class name (inline Order.status_code vs OrderStatus.code), by value-list relation
         for ri, (rel, v1, v2) in enumerate([("equal", ["new", "paid", "shipped"], ["new", "paid", "shipped"]), ("later_subset", ["new", "paid", "shipped"], ["new", "paid"]), ("later_superset", ["new", "paid"], ["new", "paid", "shipped"]),
-                                            ("disjoint", ["new", "paid"], ["x", "y"]), ("overlap", ["new", "paid"], ["paid", "late"]), ("int_subset", [1, 2, 3], [1, 2]), ("int_superset", [1, 2], [1, 2, 3])]):
+                                            ("disjoint", ["new", "paid"], ["x", "y"]), ("overlap", ["new", "paid"], ["paid", "late"]), ("int_subset", [1, 2, 3], [1, 2]), ("int_superset", [1, 2], [1, 2, 3]),
+                                            # value lists that differ only in what member naming erases: the member *names* coincide, the values do not
+                                            ("same_names_case", ["active", "idle"], ["Active", "IDLE"]), ("same_names_punct", ["on-hold", "open"], ["on_hold", "open"]), ("same_names_positional", ["1-queued", "2-done"], ["3-failed", "4-gone"])]):
             for flip in (False, True):
                 t = "string" if isinstance(v1[0], str) else "integer"
                 a = {"type": "object", "properties": {"status_code": {"type": t, "enum": v1}}, "additionalProperties": False}
